@@ -129,7 +129,8 @@ def harnesses(tier):
     ST.install_common()
     ST.install_sqlite()
     hs = []
-    for bk in ["memory", "sqlite"]:
+    ST.install_peewee()
+    for bk in ["memory", "sqlite", "peewee"]:
         for L in ([2, 3] if tier == "quick" else [2, 3, 4]):
             hs.append((Harness(PROP, "%s-history-L%d" % (bk, L), h_history, dict(bk=bk, L=L), "%s: every history of %d lifecycle operations over two bucket ids (operation, target, metadata variant, update mask chosen by forking; event content symbolic)" % (bk, L), split_depth=8), 3600))
     return hs
